@@ -206,4 +206,11 @@ theorem detects_two_substitutions_string (hrp : Bytes) (hh : Proofs.Bech32.Valid
 example : Bech32.verifyChecksum [0x61] [10, 28, 25, 31, 20, 31] = true := by decide
 example : Proofs.Bech32.ValidHrp [0x62, 0x63] := ⟨by decide, by decide, by decide⟩
 
+open BtcVerif.Gen.Guards in
+/-- the mixed-case test of `bech32.Validate` (decode.go:80) is the conjunction the model writes by hand:
+the string differs from its lower-case form and from its upper-case form -/
+theorem mixed_case_test_pinned (s lower upper : String) :
+    bech32_Validate_4 (bechAndHrp := s) (lowerCase := lower) (upperCase := upper) =
+      (decide (s ≠ lower) && decide (s ≠ upper)) := rfl
+
 end BtcVerif.Props.C08
